@@ -416,6 +416,62 @@ def layout_rules(rep, r5, m, clear_only=False):
 
 
 
+def heap_loops(m):
+    """[(function, loop, heap owner, calls in the loop that can restructure that heap)] for every loop that indexes a heap
+    array with a variable it advances"""
+    out = []
+    for f in m.funcs.values():
+        rel = m.rel(f.file) or ""
+        if not rel.startswith(("src/", "include/")):
+            continue
+        cx = None
+        for x in walk(f.body):
+            if x["kind"] not in ("ForStmt", "WhileStmt"):
+                continue
+            ch = kids(x)
+            body = ch[4] if x["kind"] == "ForStmt" else ch[1]
+            cx = cx or FuncCtx(m, f)
+            # variables the loop itself advances (condition / increment / body assignments)
+            lvars = set()
+            for part in ch:
+                for y in walk(part):
+                    t = None
+                    if y["kind"] == "UnaryOperator" and y.get("opcode") in ("++", "--"):
+                        t = strip(kids(y)[0], casts=True)
+                    elif y["kind"] == "CompoundAssignOperator" or (y["kind"] == "BinaryOperator" and y.get("opcode") == "="):
+                        t = strip(kids(y)[0], casts=True)
+                    elif y["kind"] == "VarDecl" and part is ch[0]:
+                        lvars.add(y["name"])
+                    if t is not None and t["kind"] == "DeclRefExpr":
+                        lvars.add(t["ref"]["name"])
+            # a heap array of some hashheap indexed by such a variable (any direction, any bound)
+            H = None
+            for y in walk(body):
+                if y["kind"] != "ArraySubscriptExpr":
+                    continue
+                base = cx.canon(kids(y)[0])
+                mm = re.fullmatch(r"(.+?)(->|\.)heap", base)
+                if not mm:
+                    continue
+                if any(z["kind"] == "DeclRefExpr" and z["ref"]["name"] in lvars for z in walk(kids(y)[1])):
+                    H = mm.group(1) if mm.group(2) == "->" else "&" + mm.group(1)
+                    break
+            if H is None:
+                continue
+            H = H.lstrip("(")
+            bad = []
+            for y in walk(body):
+                if y["kind"] != "CallExpr":
+                    continue
+                nm = callee_ref(y)
+                if nm in HEAP_MUTATORS and kids(y)[1:] and cx.canon(kids(y)[1]).lstrip("&") == H.lstrip("&"):
+                    bad.append(nm)
+                if H == "event_queue" and nm in EVENT_MUTATORS:
+                    bad.append(nm)
+            out.append((f, x, H, bad))
+    return out
+
+
 def rules(rep, m):
     hh = {f.name: f for f in m.funcs.values() if m.rel(f.file) == UNIT}
     for need in ("cmi_hashheap_enqueue", "cmi_hashheap_dequeue", "cmi_hashheap_remove", "heap_up", "heap_down",
@@ -676,61 +732,14 @@ def rules(rep, m):
     r7 = rep.rule("R-C02-7", "no loop that walks the slots of a heap array (in either direction, whatever its bounds) contains "
                   "a call that can restructure the same heap: a removal sifts the refill entry up or down, so entries not "
                   "yet visited move into visited slots (pattern cancel and condition signal are two-pass)", floor=5)
-    for f in m.funcs.values():
-        rel = m.rel(f.file) or ""
-        if not rel.startswith(("src/", "include/")):
-            continue
-        cx = None
-        for x in walk(f.body):
-            if x["kind"] not in ("ForStmt", "WhileStmt"):
-                continue
-            ch = kids(x)
-            body = ch[4] if x["kind"] == "ForStmt" else ch[1]
-            cx = cx or FuncCtx(m, f)
-            # variables the loop itself advances (condition / increment / body assignments)
-            lvars = set()
-            for part in ch:
-                for y in walk(part):
-                    t = None
-                    if y["kind"] == "UnaryOperator" and y.get("opcode") in ("++", "--"):
-                        t = strip(kids(y)[0], casts=True)
-                    elif y["kind"] == "CompoundAssignOperator" or (y["kind"] == "BinaryOperator" and y.get("opcode") == "="):
-                        t = strip(kids(y)[0], casts=True)
-                    elif y["kind"] == "VarDecl" and part is ch[0]:
-                        lvars.add(y["name"])
-                    if t is not None and t["kind"] == "DeclRefExpr":
-                        lvars.add(t["ref"]["name"])
-            # a heap array of some hashheap indexed by such a variable (any direction, any bound)
-            H = None
-            for y in walk(body):
-                if y["kind"] != "ArraySubscriptExpr":
-                    continue
-                base = cx.canon(kids(y)[0])
-                mm = re.fullmatch(r"(.+?)(->|\.)heap", base)
-                if not mm:
-                    continue
-                if any(z["kind"] == "DeclRefExpr" and z["ref"]["name"] in lvars for z in walk(kids(y)[1])):
-                    H = mm.group(1) if mm.group(2) == "->" else "&" + mm.group(1)
-                    break
-            if H is None:
-                continue
-            H = H.lstrip("(")
-            r7.instance("%s: loop over the slots of %s->heap" % (f.name, H))
-            bad = []
-            for y in walk(body):
-                if y["kind"] != "CallExpr":
-                    continue
-                nm = callee_ref(y)
-                if nm in HEAP_MUTATORS and kids(y)[1:] and cx.canon(kids(y)[1]).lstrip("&") == H.lstrip("&"):
-                    bad.append(nm)
-                if H == "event_queue" and nm in EVENT_MUTATORS:
-                    bad.append(nm)
-            if bad:
-                rep.finding(r7, f.name, "mutate-while-iterating", "loop over the heap of %s calls %s, which can "
-                            "restructure that heap under the loop" % (H, sorted(set(bad))), where=m.rel(loc(x)))
-                r7.fail()
-            else:
-                r7.ok()
+    for f, x, H, bad in heap_loops(m):
+        r7.instance("%s: loop over the slots of %s->heap" % (f.name, H))
+        if bad:
+            rep.finding(r7, f.name, "mutate-while-iterating", "loop over the heap of %s calls %s, which can "
+                        "restructure that heap under the loop" % (H, sorted(set(bad))), where=m.rel(loc(x)))
+            r7.fail()
+        else:
+            r7.ok()
 
 
     # R-C02-8 ------------------------------------------------------------
